@@ -50,9 +50,18 @@ func LegacyWidth(s string) int {
 // TermWidth: cells the terminal gives cluster s when printed plainly.
 func (c *Conv) TermWidth(s string) int {
 	if c.Mode2027 {
-		return uniseg.StringWidth(s)
+		return termCols(uniseg.StringWidth(s))
 	}
 	return LegacyWidth(s)
+}
+
+// termCols: a terminal shows a cluster in one column or two (uniseg measures U+2E3A as three and U+2E3B
+// as four columns wide; no terminal gives a glyph more than two cells).
+func termCols(w int) int {
+	if w > 2 {
+		return 2
+	}
+	return w
 }
 
 // AppWidth: cells the terminal will give cluster s when the application
@@ -60,7 +69,7 @@ func (c *Conv) TermWidth(s string) int {
 // measures wider than 1 is sent with OSC 66 and so takes that width.
 func (c *Conv) AppWidth(s string) int {
 	if c.XW && !c.Mode2027 {
-		if u := uniseg.StringWidth(s); u > 1 {
+		if u := termCols(uniseg.StringWidth(s)); u > 1 {
 			return u
 		}
 	}
